@@ -14,7 +14,8 @@ RULE = ("ALL operation histories of length <= 3 (quick) / <= 4 (thorough) over a
         "bounds None/1/2, plus seeded random histories of up to 200 operations with repeated and equal priorities, characteristics rewritten between operations and "
         "bounds None/1/2/3/5/50, plus histories on CharacteristicsQueue alone. After every operation the real container is compared with a reference model (sorted list + "
         "nondeterministic priority-queue specification that keeps every admissible tie resolution). Preconditions of the API are respected. Non-trivial: a history with "
-        ">= 1 insert and >= 1 best-interval request or lookup; distinct = (class, bound, history).")
+        ">= 1 insert and >= 1 best-interval request or lookup; distinct = (class, bound, history)."
+       ' Large containers (1100..2600 items, coordinates in clusters 1e-12..1e-7 apart) are checked against a bisect model.')
 ASSUMPTIONS = ["operations outside the API preconditions are not generated (empty container, coordinate outside (0,1) or already present, wrong hint)",
                "ties between equal priorities may be resolved either way; a history whose admissible-state set exceeds 256 is abandoned as inconclusive"]
 CHUNK = 1
